@@ -79,6 +79,8 @@
 //! ```
 
 #![allow(unknown_lints, clippy::uninlined_format_args)]
+// Verification only: lets the Kani harnesses name `Vec<T, A>` when stubbing allocation entry points.
+#![cfg_attr(kani, feature(allocator_api))]
 
 mod errors;
 pub use crate::errors::*;
